@@ -11,7 +11,7 @@ use neurons::tensor::Tensor;
 
 pub fn meta(_ctx: &Ctx) -> Meta {
     Meta {
-        rule: "data-set sizes M in {0 (predict_batch only),1,2,3,63,64,65,127,128,129,130,200} (and 256, 257, 300, 1025 for a thin slice) (below, at, above the internal chunk size 64, not multiples of it) x heads {soft-max(3), linear(1), linear(3), sigmoid(2)} x bodies {dense, conv+dense, conv+pool+dense, dense with a multiplicative skip connection, dense with a loop connection} x 7 objectives x tolerances {1e-6,0.1,0.5,10}; inputs pairwise distinct; targets placed clearly inside / outside the tolerance per component, arg-max unique; plus soft-max heads whose last two units are copies (tied maxima): the accuracy must be the mean of the single-sample verdicts, each 0 or 1, and lie between the certain and the possible agreements (the statement does not fix which of several maxima counts). Oracles: predict_batch(xs)[i] bit-equal predict(xs[i]) in input order, length M; predict = last activation of forward; validate loss = mean of objective.loss(predict(x),t); accuracy by the three documented rules; validate and predict_batch repeated inside pools of 1 and 2 workers. A state is one (M, head, body, objective, tolerance) configuration; transitions = predictions made; non-trivial = M >= 2".into(),
+        rule: "data-set sizes M in {0 (predict_batch only),1,2,3,63,64,65,127,128,129,130,200} (and 256, 257, 300, 1025 for a thin slice) (below, at, above the internal chunk size 64, not multiples of it) x heads {soft-max(3), linear(1), linear(3), sigmoid(2); soft-max(1) for a slice} x bodies {dense, conv+dense, conv+pool+dense, dense with a multiplicative skip connection, dense with a loop connection} x 7 objectives x tolerances {1e-6,0.1,0.5,10}; inputs pairwise distinct; targets placed clearly inside / outside the tolerance per component, arg-max unique; plus soft-max heads whose last two units are copies (tied maxima): the accuracy must be the mean of the single-sample verdicts, each 0 or 1, and lie between the certain and the possible agreements (the statement does not fix which of several maxima counts). Oracles: predict_batch(xs)[i] bit-equal predict(xs[i]) in input order, length M; predict = last activation of forward; validate loss = mean of objective.loss(predict(x),t); accuracy by the three documented rules; validate and predict_batch repeated inside pools of 1 and 2 workers. A state is one (M, head, body, objective, tolerance) configuration; transitions = predictions made; non-trivial = M >= 2".into(),
         bound: "M <= 200; complete product".into(),
         exhaustive: true,
         assumptions: vec!["the mean is compared with tolerance (M+2)*eps*mean|term| (any summation order)".into()],
@@ -24,6 +24,7 @@ const TOLS: [f32; 4] = [1e-6, 0.1, 0.5, 10.0];
 fn net_for(head: &str, body: &str) -> Net {
     let head_layer = match head {
         "softmax3" => L::Dense { n: 3, act: Act::Softmax, bias: true, drop: None },
+        "softmax1" => L::Dense { n: 1, act: Act::Softmax, bias: true, drop: None },
         "linear1" => L::Dense { n: 1, act: Act::Linear, bias: true, drop: None },
         "linear3" => L::Dense { n: 3, act: Act::Linear, bias: true, drop: None },
         _ => L::Dense { n: 2, act: Act::Sigmoid, bias: true, drop: None },
@@ -170,7 +171,7 @@ pub fn check(seed: u64, case: &Kv, rep: &mut Report) {
         Err(e) => rep.violate("C12 predict_batch panics", e, case),
     }
     // targets: clearly inside / outside the tolerance; soft-max: arg-max agreement or not
-    let softmax = head == "softmax3";
+    let softmax = head == "softmax3" || head == "softmax1";
     let width = singles[0].len();
     let mut targets: Vec<Tensor> = Vec::new();
     let mut want_acc: Vec<f64> = Vec::new();
@@ -196,6 +197,11 @@ pub fn check(seed: u64, case: &Kv, rep: &mut Report) {
                 hi += 1;
             }
             want_acc.push(0.0);
+        } else if softmax && width == 1 {
+            // one class: the arg-max of prediction and target is component 0 whatever the label value
+            let t = [1.0f32, 0.25, 0.0, 0.75][r.below(4)];
+            targets.push(Tensor::single(vec![t]));
+            want_acc.push(1.0);
         } else if softmax {
             let am = (0..width).max_by(|a, b| p[*a].partial_cmp(&p[*b]).unwrap()).unwrap();
             let hit = r.below(2) == 0;
@@ -320,6 +326,16 @@ pub fn cases(thorough: bool) -> Vec<Kv> {
                     for tol in TOLS {
                         out.push(Kv::new().put("m", m).put("head", head).put("body", body).put("obj", o.name()).put("tol", tol));
                     }
+                }
+            }
+        }
+    }
+    // a soft-max head with a single unit (one class): arg-max agreement is 1 whatever the label and the tolerance
+    for m in [1usize, 3, 65, 130] {
+        for body in ["dense", "conv"] {
+            for o in OBJ7 {
+                for tol in [1e-6f32, 0.5] {
+                    out.push(Kv::new().put("m", m).put("head", "softmax1").put("body", body).put("obj", o.name()).put("tol", tol));
                 }
             }
         }
